@@ -522,3 +522,124 @@ def m_iter_eq(it, callee, a, b):
 @model(r'<(std::vec::IntoIter|std::slice::Iter|std::slice::IterMut|std::str::Chars|std::iter::Peekable)<.*>>::(as_slice|as_str)')
 def m_iter_as_slice(it, c):
     pi = it_of(c); return Ref(Box_(list(pi.items[pi.i:])))
+
+# ---------------------------------------------------------------- registered in FRONT of the generic iterator models
+def reg_front(pat, fn, wc=False): REG.insert(0, (re.compile(pat), fn, wc))
+def _opt_items(o):
+    o = deref_all(o)
+    return [o.fields[0]] if o.variant == 1 else []
+reg_front(r'<std::option::Option<.*> as std::iter::IntoIterator>::into_iter', lambda it, o: PyIter(_opt_items(o)))
+reg_front(r'<&(mut )?std::option::Option<.*> as std::iter::IntoIterator>::into_iter', lambda it, o: PyIter([Ref(Box_(x)) for x in _opt_items(o)]))
+reg_front(r'<std::result::Result<.*> as std::iter::IntoIterator>::into_iter', lambda it, r: PyIter([deref_all(r).fields[0]] if deref_all(r).variant == 0 else []))
+def _copy_one_level(it, v):
+    # Option<&T>::copied/cloned gives Option<T>: one reference level goes (T may itself be a reference)
+    if isinstance(v, Ref):
+        inner = v.get()
+        return inner if isinstance(inner, Ref) else it.clone(inner)
+    return it.clone(v)
+reg_front(r'std::option::Option::<&.*>::(copied|cloned)', lambda it, o: SOME(_copy_one_level(it, o.fields[0])) if o.variant == 1 else NONE())
+
+# ---------------------------------------------------------------- unbounded ranges (start..) consumed lazily
+class LazyIter:
+    """an iterator that cannot be materialised (it starts at an unbounded range): a Python generator; consumers stop at a budget"""
+    LIMIT = 4096
+    def __init__(self, gen): self.gen = gen
+    def take(self, it):
+        n = 0
+        for x in self.gen:
+            n += 1
+            if n > self.LIMIT: raise Budget('unbounded iterator consumed beyond %d items' % self.LIMIT)
+            yield x
+def _is_range_from(d):
+    return isinstance(d, Adt) and not isinstance(d.variant, str) and d.variant == 0 and len(d.fields) == 1 and 'RangeFrom' in (d.ty or '')
+def _lazy_src(it, x):
+    d = deref_all(x)
+    if isinstance(d, LazyIter): return d
+    if _is_range_from(d):
+        def g(start=d.fields[0]):
+            k = 0
+            while True:
+                yield start + k; k += 1
+        return LazyIter(g())
+    return None
+def _lazy_or(it, orig, itr, lazy_fn, *args):
+    lz = _lazy_src(it, itr)
+    return lazy_fn(lz, *args) if lz is not None else orig(it, itr, *args)
+def _wrap_lazy(name, lazy_fn, with_generics=True):
+    from . import models
+    pat = re.compile(_IT + name + (r'(::<.*>)?' if with_generics else ''))
+    # the eager model that is registered for the same call
+    cache = {}
+    def find_orig(callee):
+        if callee not in cache:
+            cache[callee] = (None, None)
+            for p, fn, wc in REG:
+                if getattr(fn, '_lazy_wrapper', False): continue
+                if p.fullmatch(callee): cache[callee] = (fn, wc); break
+        return cache[callee]
+    def wrapper(it, callee, itr, *args):
+        lz = _lazy_src(it, itr)
+        if lz is not None: return lazy_fn(it, lz, *args)
+        fn, wc = find_orig(callee)
+        if fn is None: raise Unsupported('call ' + callee)
+        return fn(it, callee, itr, *args) if wc else fn(it, itr, *args)
+    wrapper._lazy_wrapper = True
+    REG.insert(0, (pat, wrapper, True))
+def _lz_map(it, lz, clo): return LazyIter(it.call_closure(clo, x) for x in lz.take(it))
+def _lz_filter(it, lz, clo): return LazyIter(x for x in lz.take(it) if B(it, it.call_closure(clo, Ref(Box_(x)))))
+def _lz_filter_map(it, lz, clo):
+    def g():
+        for x in lz.take(it):
+            r = it.call_closure(clo, x)
+            if r.variant == 1: yield r.fields[0]
+    return LazyIter(g())
+def _lz_find(it, lz, clo):
+    for x in lz.take(it):
+        if B(it, it.call_closure(clo, Ref(Box_(x)))): return SOME(x)
+    return NONE()
+def _lz_find_map(it, lz, clo):
+    for x in lz.take(it):
+        r = it.call_closure(clo, x)
+        if r.variant == 1: return r
+    return NONE()
+def _lz_position(it, lz, clo):
+    for k, x in enumerate(lz.take(it)):
+        if B(it, it.call_closure(clo, x)): return SOME(k)
+    return NONE()
+def _lz_any(it, lz, clo):
+    for x in lz.take(it):
+        if B(it, it.call_closure(clo, x)): return True
+    return False
+def _lz_next(it, lz):
+    for x in lz.take(it): return SOME(x)
+    return NONE()
+def _lz_take(it, lz, n):
+    if not isinstance(n, int): raise Unsupported('symbolic take')
+    out = []
+    for x in lz.take(it):
+        if len(out) >= n: break
+        out.append(x)
+    return PyIter(out)
+def _lz_take_while(it, lz, clo):
+    out = []
+    for x in lz.take(it):
+        if not B(it, it.call_closure(clo, Ref(Box_(x)))): break
+        out.append(x)
+    return PyIter(out)
+def _lz_map_while(it, lz, clo):
+    out = []
+    for x in lz.take(it):
+        r = it.call_closure(clo, x)
+        if r.variant != 1: break
+        out.append(r.fields[0])
+    return PyIter(out)
+def _lz_enumerate(it, lz): return LazyIter([k, x] for k, x in enumerate(lz.take(it)))
+def _lz_skip(it, lz, n):
+    def g():
+        for k, x in enumerate(lz.take(it)):
+            if k >= n: yield x
+    return LazyIter(g())
+for _nm, _fn, _g in (('map', _lz_map, True), ('filter', _lz_filter, True), ('filter_map', _lz_filter_map, True), ('find', _lz_find, True), ('find_map', _lz_find_map, True),
+                     ('position', _lz_position, True), ('any', _lz_any, True), ('next', _lz_next, False), ('take', _lz_take, False), ('take_while', _lz_take_while, True),
+                     ('map_while', _lz_map_while, True), ('enumerate', _lz_enumerate, False), ('skip', _lz_skip, False)):
+    _wrap_lazy(_nm, _fn, _g)
